@@ -8,6 +8,7 @@ import (
 	"strings"
 
 	beacon "github.com/oasisprotocol/oasis-core/go/beacon/api"
+	"github.com/oasisprotocol/oasis-core/go/common/cbor"
 	"github.com/oasisprotocol/oasis-core/go/consensus/api/events"
 	governance "github.com/oasisprotocol/oasis-core/go/governance/api"
 	staking "github.com/oasisprotocol/oasis-core/go/staking/api"
@@ -252,10 +253,6 @@ func (w *world) observe(in *muxdrv.BlockInput, bp *blockPlan, res *muxdrv.BlockR
 			}
 			acc := prev.acct(a)
 			act := acc.Escrow.Active.Balance.ToBigInt()
-			if known && a == propAddr {
-				act.Add(act, rewardRem)
-				act.Add(act, rewardCom)
-			}
 			v := [2]*big.Int{act, acc.Escrow.Debonding.Balance.ToBigInt()}
 			adj[a] = v
 			return v
@@ -273,7 +270,17 @@ func (w *world) observe(in *muxdrv.BlockInput, bp *blockPlan, res *muxdrv.BlockR
 			}
 		}
 		consAmt := amt
-		for _, t := range takeEscrows(res.BeginEvents) {
+		// replay the BeginBlock events in order: rewards paid before a slash raise the balance it sees
+		for _, ev := range stakingSevs(res.BeginEvents) {
+			if ev.add != nil {
+				v := get(ev.add.Escrow)
+				v[0].Add(v[0], ev.add.Amount.ToBigInt())
+				continue
+			}
+			if ev.take == nil {
+				continue
+			}
+			t := *ev.take
 			amt = consAmt
 			kind := "slash"
 			if !evOwner[t.Owner] {
@@ -358,12 +365,71 @@ func (w *world) observe(in *muxdrv.BlockInput, bp *blockPlan, res *muxdrv.BlockR
 		}
 	}
 
+	// ---- governance deposits (EndBlock): refunds / discards of the proposals closed now ----
+	{
+		wasActive := map[uint64]*governance.Proposal{}
+		for _, pr := range prev.props {
+			if pr.State == governance.StateActive {
+				wasActive[pr.ID] = pr
+			}
+		}
+		pool := new(big.Int).Set(prev.govDep)
+		var closed []*governance.Proposal
+		for _, pr := range cur.props { // sorted by id, the order in which EndBlock closes them
+			if old, ok := wasActive[pr.ID]; ok && pr.State != governance.StateActive {
+				closed = append(closed, old)
+			}
+			if _, ok := wasActive[pr.ID]; !ok && pr.State == governance.StateActive {
+				known := false
+				for _, q := range prev.props {
+					if q.ID == pr.ID {
+						known = true
+					}
+				}
+				if !known {
+					pool.Add(pool, pr.Deposit.ToBigInt()) // submitted in this block
+				}
+			}
+		}
+		if len(closed) > 0 {
+			sort.Slice(closed, func(a, b int) bool { return closed[a].ID < closed[b].ID })
+			var deps, outs []string
+			for _, pr := range closed {
+				deps = append(deps, n(pr.Deposit.ToBigInt()))
+			}
+			for _, t := range transfers(res.EndEvents) {
+				if t.from == staking.GovernanceDepositsAddress {
+					outs = append(outs, fmt.Sprintf("(%s, 0, 0)", n(t.amt)))
+				}
+			}
+			call := fmt.Sprintf("CGovClose %s [%s]", n(pool), strings.Join(deps, "; "))
+			w.emit(h, "gov_close", call, fmt.Sprintf("OSeq [%s] %s", strings.Join(outs, "; "), n(cur.govDep)), false)
+			if cur.params != nil && prev.govMin != nil && cur.govMin != nil && len(closed) > 0 {
+				src := "random: "
+				if w.d.Script != "" {
+					src = "script: "
+				}
+				for _, pr := range closed {
+					switch pr.Deposit.ToBigInt().Cmp(prev.govMin) {
+					case -1:
+						w.count("gov-close/" + src + "deposit below the current minimum (raised meanwhile)")
+					case 1:
+						w.count("gov-close/" + src + "deposit above the current minimum (lowered meanwhile)")
+					default:
+						w.count("gov-close/" + src + "deposit equals the current minimum")
+					}
+				}
+			}
+		}
+	}
+
 	// ---- governance tally (EndBlock) ----
 	if hasKind(res.EndEvents, "proposal_finalized") || hasKind(res.EndEvents, (&governance.ProposalFinalizedEvent{}).EventKind()) {
 		before := map[uint64]governance.ProposalState{}
 		for _, pr := range prev.props {
 			before[pr.ID] = pr.State
 		}
+		thr := prev.govThr // the threshold in force when EndBlock starts
 		for _, pr := range cur.props {
 			if pr.State == governance.StateActive {
 				continue
@@ -371,7 +437,15 @@ func (w *world) observe(in *muxdrv.BlockInput, bp *blockPlan, res *muxdrv.BlockR
 			if st, ok := before[pr.ID]; ok && st != governance.StateActive {
 				continue // closed earlier
 			}
-			w.tallyCase(h, pr, cur)
+			w.tallyCase(h, pr, cur, thr)
+			// a passed change of the stake threshold applies to the proposals closed after it in
+			// the same EndBlock (closeProposal re-reads the parameters, governance.go:382-385)
+			if cp := pr.Content.ChangeParameters; cp != nil && pr.State == governance.StatePassed && cp.Module == governance.ModuleName {
+				var ch governance.ConsensusParameterChanges
+				if cbor.Unmarshal(cp.Changes, &ch) == nil && ch.StakeThreshold != nil {
+					thr = *ch.StakeThreshold
+				}
+			}
 		}
 	}
 }
@@ -379,7 +453,7 @@ func (w *world) observe(in *muxdrv.BlockInput, bp *blockPlan, res *muxdrv.BlockR
 // tallyCase records the tally of one proposal closed in this block. The state
 // after the block is the state the tally saw: nothing after the governance
 // EndBlock changes escrow pools, delegations or the current validator set.
-func (w *world) tallyCase(h int64, pr *governance.Proposal, cur *snap) {
+func (w *world) tallyCase(h int64, pr *governance.Proposal, cur *snap, thr uint8) {
 	ids := map[staking.Address]int{}
 	id := func(a staking.Address) int {
 		if v, ok := ids[a]; ok {
@@ -433,7 +507,7 @@ func (w *world) tallyCase(h int64, pr *governance.Proposal, cur *snap) {
 		return n(q.ToBigInt())
 	}
 	passed := pr.State == governance.StatePassed || pr.State == governance.StateFailed
-	call := fmt.Sprintf("CTally [%s] [%s] [%s] %d", strings.Join(vs, "; "), strings.Join(ds, "; "), strings.Join(vt, "; "), cur.govThr)
+	call := fmt.Sprintf("CTally [%s] [%s] [%s] %d", strings.Join(vs, "; "), strings.Join(ds, "; "), strings.Join(vt, "; "), thr)
 	other := new(big.Int)
 	for v, q := range pr.Results {
 		if v < 1 || v > 3 {
@@ -456,4 +530,14 @@ func (w *world) tallyCase(h int64, pr *governance.Proposal, cur *snap) {
 		w.count("tally-votes/validators and delegators")
 	}
 	w.count("tally-outcome/" + pr.State.String())
+	if cp := pr.Content.ChangeParameters; cp != nil {
+		tag := cp.Module
+		if cp.Module == governance.ModuleName {
+			var ch governance.ConsensusParameterChanges
+			if cbor.Unmarshal(cp.Changes, &ch) == nil && ch.MinProposalDeposit != nil {
+				tag += " min_proposal_deposit"
+			}
+		}
+		w.count("govparams-closed/" + tag + " " + pr.State.String())
+	}
 }
